@@ -188,8 +188,10 @@ P_ReportLeader(w, l, e) ==
   /\ P_Epochs
   /\ IF Stale(l, e) THEN obs'.err # "" /\ NoChange
      ELSE /\ isr' = isr /\ exists' = exists
-          /\ leader' = leader => (lepoch' = lepoch /\ pepoch' = pepoch)
-          /\ leader' # leader =>
+          \* no election: nothing moves
+          /\ lepoch' = lepoch => pepoch' = pepoch
+          \* an election (a new leader epoch):
+          /\ lepoch' # lepoch =>
                \* chosen from the current in-sync set, never the reported leader
                /\ leader' \in isr /\ leader' # l
                \* only after more than half of the in-sync followers reported
